@@ -44,6 +44,11 @@ def make_files(ck):
         data = bytes(data)
         info = dict(sig=1, hc=1, coh=1, wr=1, m4=1, np=0, ne=nev, off=int.from_bytes(data[96:100], "little"), rl=las.header.point_format.size)
         out.append((f"valid compressed v1.4 fmt6 n=0 evlrs={nev}", data, info))
+    # a valid header and point block followed by an EVLR whose user id cannot be decoded: loading the EVLRs fails
+    dmg = bytearray(out[5][1])
+    ev0 = int.from_bytes(dmg[235:243], "little")
+    dmg[ev0 + 2:ev0 + 6] = b"\xff\xfe\xfd\xfc"
+    out.append(("valid header, undecodable EVLR user id", bytes(dmg), dict(out[5][2], evbad=1)))
     base = out[1][1]
     binfo = out[1][2]
     out.append(("invalid signature", b"XXXX" + base[4:], dict(binfo, sig=0)))
@@ -132,11 +137,11 @@ def run(ck):
                         if s.closed != closefd:
                             ck.fail(f"read mode, {label}, {kname}, closefd={closefd}, read_evlrs={read_evlrs}, outcome '{outcome}'"
                                     f"{' (raised ' + err + ')' if err else ''}: stream.closed == {s.closed}", sc)
-                        if opened and err is not None and info["sig"] and info["hc"] and info["coh"] and info["wr"]:
+                        if opened and err is not None and info["sig"] and info["hc"] and info["coh"] and info["wr"] and not info.get("evbad"):
                             ck.fail(f"read mode, {label}, {kname}, read_evlrs={read_evlrs}, outcome '{outcome}' raised {err} on a valid file", sc)
                         if pos_open is not None and pos_open != info["off"]:
                             ck.fail(f"after open the stream is at {pos_open}, not at the first point record ({info['off']})", sc)
-                        if outcome != "read_las" and (info["wr"] or not opened):
+                        if outcome != "read_las" and (info["wr"] or not opened) and not info.get("evbad"):
                             lines.append(f"st read {sk} {ri} {info_tok(info)} {int(closefd)} {int(read_evlrs)} " + " ".join(ops))
                             meta.append((sc, opened and err is None, int(s.closed), pos_open))
     # ------------------------------------------------ write mode
